@@ -122,6 +122,9 @@ def bool_atoms(t: Term, out=None) -> List[str]:
         for a in t.args:
             bool_atoms(a, out)
         return out
+    from .terms import Const
+    if isinstance(t, Const) and isinstance(t.v, bool):
+        return out          # a constant is no test
     k, _ = Frame.norm_cond(t.key(), True)
     if k not in out:
         out.append(k)
@@ -145,6 +148,9 @@ def eval_bool(t: Term, assign: Dict[str, bool]):
         if any(v is True for v in vs):
             return True
         return None if any(v is None for v in vs) else False
+    from .terms import Const
+    if isinstance(t, Const) and isinstance(t.v, bool):
+        return t.v
     k, pol = Frame.norm_cond(t.key(), True)
     if k not in assign:
         return None
